@@ -337,6 +337,14 @@ func (h *H) publisherOf(parent *NodeRT) kcache.Publisher {
 	return parent.Pub
 }
 
+// PublisherName: "the controller" or the node's name.
+func (h *H) PublisherName(n *NodeRT) string {
+	if n == nil {
+		return "the controller"
+	}
+	return n.Name()
+}
+
 // PublisherOf: the publisher behind a node (nil = the root controller).
 func (h *H) PublisherOf(n *NodeRT) kcache.Publisher { return h.publisherOf(n) }
 
